@@ -30,13 +30,17 @@ Inductive astep (cf : config) : mstate -> mstate -> Prop :=
     Z.of_nat (length out) < cf_window cf ->
     free_seq (S (length out)) (k_seq k) out = Some (s, s') ->
     astep cf (MS tr k (BS (c :: q) true out cbs))
-             (MS (tr ++ [OSend (k_ntx k) (c_id c) s (k_now k)])
-                 {| k_seq := s'; k_ntx := k_ntx k + 1; k_now := k_now k; k_buf := k_buf k |}
-                 (BS q true (out ++ [new_entry cf c s (k_now k)]) cbs))
+             (MS (tr ++ [OSend (k_ntx k) (c_id c) s (k_now k + dur (cf_iter cf) (c_id c))])
+                 {| k_seq := s'; k_ntx := k_ntx k + 1; k_now := k_now k + dur (cf_iter cf) (c_id c);
+                    k_buf := k_buf k |}
+                 (BS q true (out ++ [new_entry cf c s (k_now k + dur (cf_iter cf) (c_id c))]) cbs))
 | A_exhausted : forall tr k out cbs,
     astep cf (MS tr k (BS [] true out cbs)) (MS tr k (BS [] false out cbs))
 | A_callback : forall tr k q qd out c d cbs,
-    astep cf (MS tr k (BS q qd out ((c, d) :: cbs))) (MS (tr ++ [OCallback c d]) k (BS q qd out cbs))
+    astep cf (MS tr k (BS q qd out ((c, d) :: cbs)))
+             (MS (tr ++ [OCallback c d])
+                 {| k_seq := k_seq k; k_ntx := k_ntx k; k_now := k_now k + dur (cf_cb cf) c; k_buf := k_buf k |}
+                 (BS q qd out cbs))
 | A_select : forall tr k b t,
     astep cf (MS tr k b) (MS (tr ++ [OSelect t]) k b)
 | A_event : forall tr k b data t,
@@ -124,12 +128,20 @@ Proof.
 Qed.
 
 Lemma callbacks_refine : forall cf cbs tr0 k q qd out,
-  star cf (MS tr0 k (BS q qd out cbs)) (MS (tr0 ++ callback_outputs cbs) k (BS q qd out [])).
+  star cf (MS tr0 k (BS q qd out cbs))
+          (MS (tr0 ++ callback_outputs cbs)
+              {| k_seq := k_seq k; k_ntx := k_ntx k; k_now := k_now k + callbacks_time cf cbs; k_buf := k_buf k |}
+              (BS q qd out [])).
 Proof.
   intros cf cbs. induction cbs as [|[c d] cbs IH]; intros tr0 k q qd out.
-  - cbn. rewrite app_nil_r. apply star_refl.
-  - cbn [callback_outputs map fst snd]. eapply star_step; [apply A_callback|].
-    eapply star_cast; [apply IH | apply app_cons_assoc].
+  - cbn [callback_outputs map callbacks_time]. rewrite app_nil_r, Z.add_0_r. destruct k; apply star_refl.
+  - cbn [callback_outputs map fst snd callbacks_time]. eapply star_step; [apply A_callback|].
+    eapply star_cast.
+    + specialize (IH (tr0 ++ [OCallback c d])
+                     {| k_seq := k_seq k; k_ntx := k_ntx k; k_now := k_now k + dur (cf_cb cf) c; k_buf := k_buf k |}
+                     q qd out).
+      cbn [k_seq k_ntx k_now k_buf] in IH. rewrite <- Z.add_assoc in IH. exact IH.
+    + apply app_cons_assoc.
 Qed.
 
 Lemma set_buf_buf : forall k buf, k_buf (set_buf k buf) = buf.
